@@ -463,30 +463,29 @@ def judge_c09(spec, PS, PT, ms, mt):
             if a["text"] != b["text"] or a["orient"] != b["orient"] or not (abs(a["pos"] - b["pos"]) < 1 + 1e-9):
                 probs.append({"rule": "tick", "svg": {"pos": a["raw"], "text": a["text"]}, "tikz": {"pos": b["raw"], "text": b["text"]}})
                 break
-    sd = sorted((d["pos"], d["colour"]) for d in PS.dots)
-    td = sorted((d["pos"], d["colour"]) for d in PT.dots)
-    if len(sd) != len(td):
-        probs.append({"rule": "dot-count", "svg": len(sd), "tikz": len(td)})
-    else:
-        # positions agree to 1e-6; colours compared as multisets within groups of (nearly) equal position
-        for a, b in zip(sd, td):
-            if abs(a[0] - b[0]) > 2e-6:
-                probs.append({"rule": "dot-position", "svg": a[0], "tikz": b[0]})
-                break
-        else:
-            def groups(lst):
-                out, cur = [], []
-                for p, c in lst:
-                    if cur and abs(p - cur[0][0]) > 1e-5:
-                        out.append(sorted(c2 for _, c2 in cur))
-                        cur = []
-                    cur.append((p, c))
-                if cur:
-                    out.append(sorted(c2 for _, c2 in cur))
-                return out
+    # dots carry no identifier: compare them as multisets, colour class by colour class (within a class the
+    # sorted positions must agree to 2e-6: "%f" against str(float))
+    def by_colour(P):
+        out = {}
+        for d in P.dots:
+            out.setdefault(d["colour"], []).append(d["pos"])
+        return {k: sorted(v) for k, v in out.items()}
 
-            if groups(sd) != groups(td):
-                probs.append({"rule": "dot-colour", "svg": sd[:6], "tikz": td[:6]})
+    cs, ct = by_colour(PS), by_colour(PT)
+    if len(PS.dots) != len(PT.dots):
+        probs.append({"rule": "dot-count", "svg": len(PS.dots), "tikz": len(PT.dots)})
+    elif {k: len(v) for k, v in cs.items()} != {k: len(v) for k, v in ct.items()}:
+        probs.append({"rule": "dot-colour", "svg": {repr(k): len(v) for k, v in cs.items()}, "tikz": {repr(k): len(v) for k, v in ct.items()}})
+    else:
+        for k in cs:
+            bad = [(x, y) for x, y in zip(cs[k], ct[k]) if abs(x - y) > 2e-6]
+            if bad:
+                # same colour counts but positions differ: either a dot moved or two dots swapped colours
+                allpos_s = sorted(d["pos"] for d in PS.dots)
+                allpos_t = sorted(d["pos"] for d in PT.dots)
+                moved = any(abs(x - y) > 2e-6 for x, y in zip(allpos_s, allpos_t))
+                probs.append({"rule": "dot-position" if moved else "dot-colour", "colour": k, "svg": bad[0][0], "tikz": bad[0][1]})
+                break
     if any(d["orient"] != PS.dots[0]["orient"] for d in PS.dots + PT.dots):
         probs.append({"rule": "dot-axis", "svg": PS.dots[0]["orient"], "tikz": [d["orient"] for d in PT.dots][:4]})
     if ms is None or mt is None:
